@@ -154,7 +154,7 @@ func Run(run *core.Run) core.Coverage {
 	rungs := []sched.Rung{{Bound: 1, MaxFree: 0}, {Bound: 0, MaxFree: -1}, {Bound: 1, MaxFree: 1}, {Bound: 2, MaxFree: 0}}
 	target := 1 // rungs that must complete for exhaustive=true
 	rungsFor := func(n int) int { return 0 }
-	budget := 50 * time.Second
+	budget := 45 * time.Second
 	if !run.Quick() {
 		valCounts = []int{1, 2, 3}
 		rungs = []sched.Rung{{Bound: 1, MaxFree: 0}, {Bound: 0, MaxFree: -1}, {Bound: 1, MaxFree: 1}, {Bound: 2, MaxFree: 0}, {Bound: 2, MaxFree: 1}, {Bound: 1, MaxFree: -1}, {Bound: 3, MaxFree: 0}}
